@@ -1,0 +1,98 @@
+//! Verification-only (`--cfg libp2p_verif`) access to the peer iterators that drive queries.
+//!
+//! `ClosestPeersIter` is re-exported as is; the crate-private `ClosestDisjointPeersIter` and
+//! `FixedPeersIter` get wrapper structs whose methods forward 1:1.
+
+use std::num::NonZeroUsize;
+
+use libp2p_identity::PeerId;
+use web_time::Instant;
+
+pub use super::peers::{
+    PeersIterState,
+    closest::{ClosestPeersIter, ClosestPeersIterConfig},
+};
+use super::peers::{closest::disjoint::ClosestDisjointPeersIter, fixed::FixedPeersIter};
+use crate::kbucket::{Key, KeyBytes};
+
+/// Forwarding wrapper around `ClosestDisjointPeersIter`.
+pub struct DisjointIter(ClosestDisjointPeersIter);
+
+impl DisjointIter {
+    pub fn with_config<I>(config: ClosestPeersIterConfig, target: KeyBytes, peers: I) -> Self
+    where
+        I: IntoIterator<Item = Key<PeerId>>,
+    {
+        DisjointIter(ClosestDisjointPeersIter::with_config(config, target, peers))
+    }
+
+    pub fn on_failure(&mut self, peer: &PeerId) -> bool {
+        self.0.on_failure(peer)
+    }
+
+    pub fn on_success<I>(&mut self, peer: &PeerId, closer_peers: I) -> bool
+    where
+        I: IntoIterator<Item = PeerId>,
+    {
+        self.0.on_success(peer, closer_peers)
+    }
+
+    pub fn next(&mut self, now: Instant) -> PeersIterState<'_> {
+        self.0.next(now)
+    }
+
+    pub fn finish_paths<'a, I>(&mut self, peers: I) -> bool
+    where
+        I: IntoIterator<Item = &'a PeerId>,
+    {
+        self.0.finish_paths(peers)
+    }
+
+    pub fn finish(&mut self) {
+        self.0.finish()
+    }
+
+    pub fn is_finished(&self) -> bool {
+        self.0.is_finished()
+    }
+
+    pub fn into_result(self) -> Vec<PeerId> {
+        self.0.into_result().collect()
+    }
+}
+
+/// Forwarding wrapper around `FixedPeersIter`.
+pub struct FixedIter(FixedPeersIter);
+
+impl FixedIter {
+    pub fn new<I>(peers: I, parallelism: NonZeroUsize) -> Self
+    where
+        I: IntoIterator<Item = PeerId>,
+    {
+        FixedIter(FixedPeersIter::new(peers, parallelism))
+    }
+
+    pub fn on_success(&mut self, peer: &PeerId) -> bool {
+        self.0.on_success(peer)
+    }
+
+    pub fn on_failure(&mut self, peer: &PeerId) -> bool {
+        self.0.on_failure(peer)
+    }
+
+    pub fn next(&mut self) -> PeersIterState<'_> {
+        self.0.next()
+    }
+
+    pub fn finish(&mut self) {
+        self.0.finish()
+    }
+
+    pub fn is_finished(&self) -> bool {
+        self.0.is_finished()
+    }
+
+    pub fn into_result(self) -> Vec<PeerId> {
+        self.0.into_result().collect()
+    }
+}
